@@ -1,5 +1,6 @@
 import NeumannModel.Common.Proto
 import NeumannModel.Parse.Model
+import NeumannModel.Parse.Select
 /-
   Line-protocol driver for the expression-parser model (C15).
 
@@ -9,11 +10,19 @@ import NeumannModel.Parse.Model
   answers : S-expression `a<n>` | `*` | `()` | `(neg E)` | `(add L R)` …, prefixed `ok `;
             errors `err too_deep <tokidx>` | `err eof <expected>` | `err unexpected <expected> <tokidx>`
 
-  ops     : parse <tok>*            model of neumann_parser::parse_expr (MAX_DEPTH = 64)
-            parse_nolimit <tok>*    the same Pratt loop without depth counter (parser.rs)
+  ops     : parse <tok>*            model of neumann_parser::parse_expr AND of the statement parser's
+                                    expression loop (both MAX_DEPTH = 64 since /repo 59c7cb56)
+            parse_nolimit <tok>*    PRE-FIX statement parser: the same Pratt loop without depth counter
+                                    (asked only by the harness's start-up probe, for contrast)
             print  min|full|all T   token list of the printer the theorems speak about
             frames min|full|all T   nesting depth the real parser needs for that print
             normal <tok>*           printMin of the parse (Props.parse_normal_form), or the error
+            sel <stok>*             model of neumann_parser::parse on the SELECT skeleton (Select.lean):
+                                    stok = `select` `*` `from` `(` `)` `t<n>` `where` `exists` `other`;
+                                    answers `ok T` with T = `(q SRC WHR)`, SRC = `-` | `t<n>` | T,
+                                    WHR = `-` | T; `err too_deep <tokidx>` | `err eof <expected>` |
+                                    `err unexpected <expected> <tokidx>` (expected = `(` `)` `SELECT`
+                                    `identifier` `expression`) | `outside` (input leaves the fragment)
 -/
 open Neumann Neumann.Proto Neumann.Parse
 
@@ -109,9 +118,52 @@ def extraOf : String → Option (Expr → Bool)
   | "all" => some (fun _ => true)
   | _ => none
 
+/-! ### SELECT skeleton (`Neumann.Parse.Sel`) -/
+
+def readTbl (s : String) : Option Nat :=
+  match s.toList with
+  | 't' :: ds => if ds.isEmpty then none else (String.ofList ds).toNat?
+  | _ => none
+
+def readSTok (s : String) : Option Sel.STok :=
+  match s with
+  | "select" => some .select
+  | "*" => some .star
+  | "from" => some .fromKw
+  | "(" => some .lparen
+  | ")" => some .rparen
+  | "where" => some .whereKw
+  | "exists" => some .existsKw
+  | "other" => some .other
+  | _ => (readTbl s).map Sel.STok.tbl
+
+def showSrcOpt : Option Nat → String
+  | none => "-"
+  | some n => s!"t{n}"
+
+def showQ : Sel.Q → String
+  | .leaf o => "(q " ++ showSrcOpt o ++ " -)"
+  | .fromSub s => "(q " ++ showQ s ++ " -)"
+  | .whereSub o w => "(q " ++ showSrcOpt o ++ " " ++ showQ w ++ ")"
+  | .both s w => "(q " ++ showQ s ++ " " ++ showQ w ++ ")"
+
+def showSExpect : Sel.SExpect → String
+  | .expression => "expression" | .lparen => "(" | .rparen => ")" | .select => "SELECT"
+  | .identifier => "identifier"
+
+def showSelRes (n : Nat) : Sel.Res Sel.Q → String
+  | .ok q => "ok " ++ showQ q
+  | .error (.tooDeep rem) => s!"err too_deep {n - rem}"
+  | .error (.eof x) => "err eof " ++ showSExpect x
+  | .error (.unexpected x rem) => s!"err unexpected {showSExpect x} {n - rem}"
+  | .error .fuel => "err fuel"
+  | .outside => "outside"
+
 def parseStep (_ : Unit) (line : String) : Unit × String :=
   let bad := ((), "bad-op")
   match words line with
+  | "sel" :: ws => match ws.mapM readSTok with
+      | some ts => ((), showSelRes ts.length (Sel.parseStmt ts)) | none => bad
   | "parse" :: ws => match ws.mapM readTok with
       | some ts => ((), showRes ts.length (parse ts)) | none => bad
   | "parse_nolimit" :: ws => match ws.mapM readTok with
